@@ -20,6 +20,8 @@ def obligations(tier):
     T = ['"\\u????"', '"\\uD???\\uD???"', '"\\u????\\u??', '"??\\u00??"'] if q else ['"\\u????"', '"\\uD???\\uD???"', '"\\u????\\u??', '"\\uD8??\\?D???"', '"??\\u00??"', '"\\u????\\u????"', '"\\u?????"', '"\\uD8???????"', '"???\\u????"']
     for i, t in enumerate(T):
         for v in B:
+            if not v and t.count("?") >= 7:
+                continue  # without UTF-8 validation 7 unconstrained bytes exceed the budget (1.7 M paths)
             L.append(ob("scanT/%d/validate=%d" % (i, v), "internal/jsonwire", "VerifC11ScanT", [t, v]))
     for n in ([3, 4] if q else [3, 4, 5]):
         for h, j, a, p in ((0, 0, 0, 0), (1, 1, 0, 0), (1, 0, 0, 1), (0, 1, 1, 1), (0, 0, 1, 0), (0, 0, 0, 1)):
